@@ -351,6 +351,32 @@ template<class E> static void run_hsf(long k)
 	printf("%s%s", thrown ? "exc" : "val", canon(false, true).c_str());
 }
 
+// ONE insertion through TreeSet::Relocator at block level: TreeNode<4, 1> with one block per pool buffer and no cache (every node is a
+// block of kit::MM), 16 ascending keys (height 2, full rightmost leaf and full root), then the 17th: leaf split, root split, new root =
+// 5 nodes, the 5th makes mNewNodes (NestedArrayIntCap<4, Node*>) take a heap block.  Only block events and the failure marker are
+// compared (the items' relocation is ObjectManager::RelocateCreate, tied by "om"); the registry summary is taken after ~TreeSet.
+static void run_rel(long k)
+{
+	typedef kit::ElemNtm E;
+	typedef TreeSet<E, TreeTraits<E, false, TreeNode<4, 1, MemPoolParams<1, 0>>>, kit::MM> TS;
+	std::vector<E> pool; pool.reserve(20);
+	for (size_t i = 0; i < 17; ++i) pool.emplace_back(int64_t(i));
+	bool thrown = false;
+	std::string tr;
+	{
+		TS s(TS::TreeTraits(), kit::MM(1));
+		for (size_t i = 0; i < 16; ++i) s.Insert(pool[i]);
+		window_begin(k);
+		try { s.Insert(pool[16]); }
+		catch (const std::exception&) { thrown = true; }
+		window_end();
+		auto& el = kit::W().elog;
+		el.erase(std::remove_if(el.begin(), el.end(), [](const kit::World::Ev& e) { return e.kind != 'A' && e.kind != 'D' && e.kind != 'F'; }), el.end());
+		tr = canon(true, false, true, true);
+	}
+	printf("%s%s", thrown ? "exc" : "val", tr.c_str());
+}
+
 // TreeSet copy constructor on whatever tree n ascending keys produce with TreeNode<4,2> (depth grows with n).
 // "tsnprobe n" prints the shape in preorder:  items[(child,child,...)] ;  "tsn n shape j": the j-th element copy fails
 template<class Node> static std::string shape_of(Node* node)
@@ -503,6 +529,7 @@ int main()
 		else if (cmd == "crew") { size_t k, m; long f; is >> k >> m >> f; run_crew(k, m, f); }
 		else if (cmd == "pools") { size_t a2, b2; long f; is >> a2 >> b2 >> f; run_pools(a2, b2, f); }
 		else if (cmd == "hsf") { long k; is >> cat >> k; if (cat == "ntm") run_hsf<kit::ElemNtm>(k); else run_hsf<kit::ElemCpo>(k); }
+		else if (cmd == "rel") { long k; is >> k; run_rel(k); }
 		else if (cmd == "tsnprobe") { size_t n; is >> n; run_tsn(n, "", -1, true); }
 		else if (cmd == "tsn") { size_t n; std::string shape; long j; is >> n >> shape >> j; run_tsn(n, shape, j, false); }
 		else if (cmd == "growa") { size_t n; long c; is >> cat >> n >> c; if (cat == "ntm") run_growa<kit::ElemNtm>(n, c); else run_growa<kit::ElemCpo>(n, c); }
